@@ -82,5 +82,9 @@ def check(ctx):
         chk = [i for i, e in enumerate(ev) if e["kind"] == "raise" and e.get("short") == "_check_dimension"]
         first_use = [i for i, e in enumerate(ev) if e["kind"] in ("validate", "mutate") or (e["kind"] == "branch" and e.get("short") != "_check_dimension")]
         ok = bool(chk) and (not first_use or min(chk) < min(first_use))
-        conds = [repr(c) for i in chk for c, pol in ev[i]["pc"][-1:]]
-        ctx.ob("R-DIMCHECK", f"{f.name}: cell dimension is checked (and rejected on mismatch) before any use", ok and any("D2" in c or "cell" in c for c in conds), f"raise at {chk[:1]}, first use at {first_use[:1]}, guard {conds[:1]}", ctx.site(f))
+        condt = [c for i in chk for c, pol in ev[i]["pc"]]
+        conds = [repr(c) for c in condt]
+        from .. import tq
+
+        is_ne = any(tq.has_op(c, "ne") or (tq.has_op(c, "eq") and tq.has_op(c, "not")) for c in condt) and not any(tq.has_op(c, "lt", "gt", "le", "ge") for c in condt)
+        ctx.ob("R-DIMCHECK", f"{f.name}: cell dimension is checked (and rejected on ANY mismatch) before any use", ok and is_ne and any(tq.has_size(c, "D2") for c in condt), f"raise at {chk[:1]}, first use at {first_use[:1]}, guard {conds[:2]}", ctx.site(f))
